@@ -380,7 +380,7 @@ func otherValues(codecName string) []interface{} {
 }
 
 func TestC11RoundTrip(t *testing.T) {
-	rec := vt.NewRec(t, "C11", "roundtrip", "one typed value per case from the codec's supported domain (json/xml/form structs with scalars at extremes, slices, fixed arrays, nested structs; plain scalars and named string/bytes; protobuf and thrift messages); non-trivial = has a slice/array with >=2 distinct elements, an extreme scalar or a non-alphanumeric string; distinct by printed value")
+	rec := vt.NewRec(t, "C11", "roundtrip", "one typed value per case from the codec's supported domain (json/xml/form structs with scalars at extremes, slices, fixed arrays, nested structs; plain scalars and named string/bytes; protobuf messages decoded into fresh and into previously used destinations, thrift messages); non-trivial = has a slice/array with >=2 distinct elements, an extreme scalar or a non-alphanumeric string; distinct by printed value")
 	rapid.Check(t, func(t *rapid.T) {
 		kind := rapid.SampledFrom([]string{"json", "xml", "form-struct", "form-values", "form-map", "plain", "protobuf", "thrift", "rawbody"}).Draw(t, "kind")
 		nt := true
@@ -487,26 +487,47 @@ func TestC11RoundTrip(t *testing.T) {
 			}
 		case "protobuf":
 			c := mustCodec(t, "protobuf")
+			// the destination may be a message that was used before (a result object kept
+			// across calls): decoding resets it, as proto.Unmarshal documents
+			dirty := rapid.Bool().Draw(t, "dirtydst")
+			zeroOr := func(label string) int32 {
+				if rapid.Bool().Draw(t, label+"-zero") {
+					return 0
+				}
+				return rapid.Int32().Draw(t, label)
+			}
 			switch rapid.IntRange(0, 3).Draw(t, "pbkind") {
 			case 0:
 				v := &ppb.Payload{Seq: rapid.Int32().Draw(t, "seq"), Mtype: rapid.Int32().Draw(t, "mt"), ServiceMethod: jsonString(t, "sm", 50),
 					Status: vt.Bytes(t, "st", 50), Meta: vt.Bytes(t, "me", 50), BodyCodec: rapid.Int32().Draw(t, "bc"), Body: vt.Bytes(t, "bo", 500)}
 				var d ppb.Payload
+				if dirty {
+					d = ppb.Payload{Seq: 77, Mtype: 3, ServiceMethod: "/old", Status: []byte("old"), Meta: []byte("o=ld"), BodyCodec: 9, Body: []byte("old body")}
+				}
 				roundTrip(t, c, v, &d, func() interface{} { return pbFields(&d) }, pbFields(v))
 				canon = v.String()
 			case 1:
 				v := &wspb.Payload{Seq: rapid.Int32().Draw(t, "seq"), ServiceMethod: jsonString(t, "sm", 50), Body: vt.Bytes(t, "bo", 500), XferPipe: vt.Bytes(t, "xp", 10)}
 				var d wspb.Payload
+				if dirty {
+					d = wspb.Payload{Seq: 77, ServiceMethod: "/old", Body: []byte("old body"), XferPipe: []byte{1, 2}, Meta: []byte("o=ld")}
+				}
 				roundTrip(t, c, v, &d, func() interface{} { return []interface{}{d.Seq, d.ServiceMethod, nz(d.Body), nz(d.XferPipe)} }, []interface{}{v.Seq, v.ServiceMethod, nz(v.Body), nz(v.XferPipe)})
 				canon = v.String()
 			case 2:
 				v := &secure.Encrypt{Ciphertext: jsonString(t, "ct", 300)}
 				var d secure.Encrypt
+				if dirty {
+					d = secure.Encrypt{Cipherversion: "old", Ciphertext: "old"}
+				}
 				roundTrip(t, c, v, &d, func() interface{} { return d.Ciphertext }, v.Ciphertext)
 				canon = v.String()
 			default:
-				v := &expb.PbTest{A: rapid.Int32().Draw(t, "a"), B: rapid.Int32().Draw(t, "b")}
+				v := &expb.PbTest{A: zeroOr("a"), B: zeroOr("b")}
 				var d expb.PbTest
+				if dirty {
+					d = expb.PbTest{A: 9, B: 9}
+				}
 				roundTrip(t, c, v, &d, func() interface{} { return []int32{d.A, d.B} }, []int32{v.A, v.B})
 				canon = v.String()
 			}
